@@ -514,6 +514,51 @@ func (vc *VC) localNames(fr *Frame, b *ssa.BasicBlock, into map[string]*Val) {
 	}
 }
 
+// localNamesAt resolves source-level local names to their closest definition
+// or use that precedes instruction at.
+func (vc *VC) localNamesAt(fr *Frame, at ssa.Instruction, into map[string]*Val) {
+	b := at.Block()
+	order := map[ssa.Instruction]int{}
+	for i, in := range b.Instrs {
+		order[in] = i
+	}
+	atIdx := order[at]
+	for name, vals := range fr.dbg {
+		if _, ok := fr.names[name]; ok {
+			continue
+		}
+		var best ssa.Value
+		bestIdx := -1
+		for _, v := range vals {
+			in, ok := v.(ssa.Instruction)
+			if !ok || in.Block() == nil {
+				continue
+			}
+			tv, done := fr.vals[v]
+			if !done || tv == nil {
+				continue
+			}
+			if in.Block() == b {
+				if i := order[in]; i < atIdx && i > bestIdx {
+					best, bestIdx = v, i
+				}
+				continue
+			}
+			if bestIdx >= 0 {
+				continue
+			}
+			if in.Block().Dominates(b) {
+				if best == nil || best.(ssa.Instruction).Block().Dominates(in.Block()) {
+					best = v
+				}
+			}
+		}
+		if best != nil {
+			into[name] = fr.vals[best]
+		}
+	}
+}
+
 func (vc *VC) enterLoop(fr *Frame, li *loopInfo, phiIn map[*ssa.Phi]*Val) {
 	var ls *LoopSpec
 	if fr.spec != nil {
